@@ -98,6 +98,10 @@ func (t *indexTarget) info() targetInfo {
 	}
 }
 
+func (t *indexTarget) setInfo(info targetInfo) {
+	t.doc, t.depData, t.data, t.runs = info.Doc, info.Dependencies, info.Data, info.Runs
+}
+
 func (t *indexTarget) upToDate() (bool, string, diff.ValueDiff, error) {
 	return true, "", nil, nil
 }
